@@ -115,6 +115,11 @@ def build(spec):
             "reuse/two-contractions-free": lambda: isum(isum(P(
                 isum(isum(P(P(idx(K, i, k), idx(J, k, j)), idx(vt, j)), k), j),
                 isum(isum(P(P(idx(K, l, k), idx(J, k, j)), idx(vt, j)), k), j)), i), l),
+            # a factor outside an inner sum carries, as a *free* index, the Index object the inner sum binds
+            # (the value is vt[i] / sum_j vt[j]-weighted; the free index must survive)
+            "shadow/outer-factor-free-in-inner-bound": lambda: isum(P(idx(K, i, k), isum(P(idx(J, k, i), idx(vt, i)), i)), k),
+            "shadow/outer-factor-free-in-inner-bound-J": lambda: isum(P(idx(J, i, k), isum(P(idx(K, k, i), idx(vg, i)), i)), k),
+            "shadow/delta-into-inner-bound": lambda: isum(P(idx(Identity(t), i, k), isum(P(idx(Att, k, i), idx(vt, i)), i)), k),
             # Identity contractions
             "delta/contract": lambda: isum(isum(P(idx(Identity(t), i, j), idx(Att, i, j)), j), i),
             "delta/fixed": lambda: P(idx(Identity(t), 0, 0), f) + P(idx(Identity(t), 0, t - 1), f),
@@ -161,7 +166,7 @@ def run(spec):
     return res
 
 
-SEED_KEYS = ["KJ/basic", "KJ/with-factor", "KJ/trace", "KJ/fixed", "JK/basic", "JK/vector", "JK/trace",
+SEED_KEYS = ["shadow/outer-factor-free-in-inner-bound", "shadow/outer-factor-free-in-inner-bound-J", "shadow/delta-into-inner-bound", "KJ/basic", "KJ/with-factor", "KJ/trace", "KJ/fixed", "JK/basic", "JK/vector", "JK/trace",
              "KJ/interchanged", "KJ/inner-sum-factor", "reuse/two-contractions-same-k",
              "reuse/two-contractions-free", "delta/contract", "delta/fixed", "delta/vector", "delta/alone",
              "noncontract/KK", "noncontract/JtJ", "noncontract/KtKt"]
